@@ -232,13 +232,15 @@ def before (l : List String) (a b : String) : Bool :=
   | _, _ => false
 
 /-- **order_in_source.** In `handleMessage` the signature store is written first, then the operation is stored, then
-the round state is saved; `Poll` saves the offset after `ProcessMessage`. (Generated from /repo on every run.) -/
+the round state is saved; the poll tick (`tick`, which is all `Poll` does when its ticker fires) saves the offset after
+`ProcessMessage`. (Generated from /repo on every run.) -/
 theorem order_in_source :
     before (callsOf "handleMessage") "s.processSignatureProposal" "storeOperation" = true ∧
     before (callsOf "handleMessage") "storeOperation" "s.fsmService.SaveFSM" = true ∧
     before (callsOf "handleMessage") "s.broadcastReconstructedSignatures" "s.fsmService.SaveFSM" = true ∧
     (callsOf "ProcessMessage").contains "s.handleMessage" = true ∧
-    before (callsOf "Poll") "s.ProcessMessage" "<*ast.CallExpr>.SaveOffset" = true := by
+    callsOf "Poll" = ["s.tick"] ∧
+    before (callsOf "tick") "s.ProcessMessage" "<*ast.CallExpr>.SaveOffset" = true := by
   decide
 
 /-- **answer_order_in_source.** `executeOperation` posts the result before it retires the operation (and, for a
